@@ -18,7 +18,7 @@ fn same<S: Sc>(a: S, b: S) -> bool {
 /// `as_*` casts: every lattice value of the source scalar through every lane (rotated)
 fn cast<X: Flat, Y: Flat>(rep: &mut Report, name: &str, f: impl Fn(X) -> Y + Sync, prim: impl Fn(X::S) -> Y::S + Sync) {
     assert_eq!(X::N, Y::N);
-    let lat = <X::S as Sc>::lattice(rep.thorough());
+    let lat = <X::S as Sc>::lattice_cast(rep.thorough());
     let l = lat.len();
     let check = |x: &[X::S], acc: &mut Acc| {
         let mut y = [<Y::S as Sc>::zero(); 4];
@@ -64,7 +64,7 @@ where
     Y::S: From<X::S>,
 {
     assert_eq!(X::N, Y::N);
-    let lat = <X::S as Sc>::lattice(rep.thorough());
+    let lat = <X::S as Sc>::lattice_cast(rep.thorough());
     let l = lat.len();
     rep.sweep(&format!("{name}/lattice({l}) rotated through lanes"), l as u64, |idx, acc| {
         let x: Vec<X::S> = (0..X::N).map(|i| lat[(idx as usize + i * 7919) % l]).collect();
@@ -84,7 +84,7 @@ where
     Y::S: TryFrom<X::S>,
 {
     assert_eq!(X::N, Y::N);
-    let lat = <X::S as Sc>::lattice(rep.thorough());
+    let lat = <X::S as Sc>::lattice_cast(rep.thorough());
     let l = lat.len();
     let n = X::N;
     rep.sweep(&format!("{name}/lattice({l}) x lane-isolation"), (l * (n + 1)) as u64, |idx, acc| {
